@@ -295,12 +295,17 @@ func (j *c15Judge) judgeGiven(o *c15Obs, tab string) bool {
 	return true
 }
 
-var c15SessionSampled atomic.Bool
+var (
+	c15SessionSampled atomic.Bool
+	c15SessionBusyMs  atomic.Int64 // worker time spent in sessions (diagnostic, written to the evidence)
+)
 
 // c15DoSession runs one session on arena a and judges every step.
 func c15DoSession(run *ev.Run, j *c15Judge, a *c15Arena, s c15Session) {
 	var obs []*c15Obs
 	var broken string
+	t0 := time.Now()
+	defer func() { c15SessionBusyMs.Add(int64(time.Since(t0) / time.Millisecond)) }()
 	for try := 0; try < 2; try++ {
 		obs, broken = a.runSession(s)
 		undecided := len(obs) == 0
@@ -418,10 +423,13 @@ func c15KeyReplacement(run *ev.Run, j *c15Judge, base, producer string, keys []*
 			}
 		}
 	}()
+	t0 := time.Now()
 	if err := a.start(); err != nil {
 		run.Inconclusive("key replacement: daemon k15 did not start: " + err.Error())
 		return planned
 	}
+	run.Extra("keyfile_daemon_start_s", time.Since(t0).Seconds())
+	defer func() { run.Extra("keyfile_workload_s", time.Since(t0).Seconds()) }()
 	everConfigured := map[int]bool{}
 	idx := 3 << 20
 	var sampled atomic.Bool
